@@ -41,6 +41,7 @@ type Env struct {
 	AtQuiescence func() bool
 
 	clock int64
+	sigs  map[string]chan struct{}
 	mu    sync.Mutex // raw cross-check mode only: user functions run on library goroutines
 	// Shared survives the uses of a phased run (values a caller would keep).
 	Shared map[string]any
@@ -89,6 +90,7 @@ func Phased(e *Env, build func(*Env), final func(*Env)) {
 			phase++
 			e.Probe("second_use_after_cancel")
 			e.ResetContext()
+			e.sigs = nil
 			build(e)
 			return true
 		}
@@ -104,6 +106,7 @@ func Phased(e *Env, build func(*Env), final func(*Env)) {
 		}
 		phase++
 		e.Probe("second_use_in_one_run")
+		e.sigs = nil
 		build(e)
 		return true
 	}
@@ -126,6 +129,20 @@ func (e *Env) FailPost(clause, class, format string, args ...any) {
 		return
 	}
 	e.Viol = &Violation{Property: e.Plan.Prop, Clause: clause, Stage: e.Plan.Stage, Class: class, Msg: fmt.Sprintf(format, args...)}
+}
+
+// closedSig is closed when the consumer called name observes the close of its
+// channel (one per name and use).
+func (e *Env) closedSig(name string) chan struct{} {
+	if e.sigs == nil {
+		e.sigs = map[string]chan struct{}{}
+	}
+	c, ok := e.sigs[name]
+	if !ok {
+		c = make(chan struct{})
+		e.sigs[name] = c
+	}
+	return c
 }
 
 // Tick is a strictly increasing logical clock for invoke/return stamps of
@@ -256,6 +273,14 @@ func Consume[T any](e *Env, name string, ch <-chan T, cp ConsumerPlan, onRecv fu
 		}
 	}
 	simrt.GoEnv(name, func() {
+		if cp.AfterClosed != "" {
+			sel := simrt.Select(name+".await", false, simrt.R(e.closedSig(cp.AfterClosed)), simrt.R(e.Abort))
+			if simrt.Free() || sel.I == 1 {
+				drain()
+				return
+			}
+			e.Fault("consumer_sequential")
+		}
 		if cp.StartMs > 0 {
 			simrt.Sleep(name+".start", ms(cp.StartMs))
 			e.Fault("consumer_stall")
@@ -285,6 +310,7 @@ func Consume[T any](e *Env, name string, ch <-chan T, cp ConsumerPlan, onRecv fu
 				st.Closed = true
 				st.CloseSeq = e.S.Seq
 				st.CloseVT = e.S.Now()
+				close(e.closedSig(name))
 				return
 			}
 			v := simrt.Val(ch, sel)
